@@ -105,6 +105,7 @@ type Exec struct {
 	sched    *scheduler
 	fileN, fileBytes int
 	mutexes  map[string]*mutexState
+	builders map[string]Value
 	env      map[string]*big.Int
 	envMemo  map[int]*Term
 	nTrivial    int
